@@ -16,7 +16,7 @@ Variable rp : bytes.
 (* the static kernel never answers an opening call with a descriptor number out of thin air *)
 Lemma sem_ret_opens t c r : sem s rp t c = SRet r -> opens c r = [].
 Proof.
-  destruct c; try (intros _; reflexivity); intro E; unfold sem in E;
+  destruct c; try (intros _; reflexivity); intro E; unfold sem, ord_open in E;
     repeat match type of E with
            | context [match ?x with _ => _ end] => destruct x
            end; inversion E; subst; reflexivity.
@@ -29,7 +29,7 @@ Proof.
       destruct (Z.leb 0 (fresh t)); cbn [In] in Hn; try contradiction; destruct Hn as [H|[]]; symmetry; exact H.
   - rewrite (sem_ret_opens _ _ _ E). intros [].
   - intro Hn. destruct c; cbn [opens as_fd] in Hn; try (cbn [In] in Hn; contradiction);
-      exfalso; unfold sem in E;
+      exfalso; unfold sem, ord_open in E;
       repeat match type of E with
              | context [match ?x with _ => _ end] => destruct x
              end; discriminate.
@@ -46,7 +46,7 @@ Proof. unfold answer. destruct (sem s rp t c); reflexivity. Qed.
 Lemma sem_close t c fd : sem s rp t c = SClose fd -> c = Close fd.
 Proof.
   destruct c; try (cbn [sem]; intro E; inversion E; reflexivity);
-    unfold sem; repeat match goal with
+    unfold sem, ord_open; repeat match goal with
                        | |- context [match ?x with _ => _ end] => destruct x
                        end; intro E; discriminate.
 Qed.
@@ -56,7 +56,7 @@ Proof.
   intro E. pose proof (fresh_ge3 t) as H3.
   assert (Hfd : as_fd (RFd (fresh t)) = Ok (fresh t)) by (cbn [as_fd]; destruct (Z.leb_spec 0 (fresh t)); [reflexivity|lia]).
   destruct c; cbn [opens]; try (rewrite Hfd; reflexivity);
-    exfalso; revert E; unfold sem;
+    exfalso; revert E; unfold sem, ord_open;
     repeat match goal with
            | |- context [match ?x with _ => _ end] => destruct x
            end; intro E; discriminate.
